@@ -564,6 +564,7 @@ class sptenmat:
 
         newsubs = []
         newvals = []
+        newcells = {}
 
         k = -1
 
@@ -581,8 +582,14 @@ class sptenmat:
                 k += 1
 
                 if indx.size == 0:
-                    newsubs.append(np.hstack([rsubs[i], csubs[j]]))
-                    newvals.append(value[k])
+                    cell = (int(rsubs[i]), int(csubs[j]))
+                    if cell in newcells:
+                        # Repeated index in the key: the last value wins
+                        newvals[newcells[cell]] = value[k]
+                    else:
+                        newcells[cell] = len(newvals)
+                        newsubs.append(np.hstack([rsubs[i], csubs[j]]))
+                        newvals.append(value[k])
                 else:
                     self.vals[indx] = value[k]
 
